@@ -246,6 +246,65 @@ theorem c13_project_order_counterexample :
     · subst h1; decide
     · simp [Spec.final, Spec.step, loadFresh, h0, h1]
 
+/-- **Project layer, partial claim.**  Guard: the brand-new project (loaded with an enumeration `l`
+of the final texts by key) hands out the *same file ids* as the history did — true e.g. when no key
+was ever removed and the fresh load follows the order of first appearance, false exactly when a
+re-added key has moved (previous theorems).  Under that guard every query by key reads the same in
+the incremental and in the fresh project. -/
+theorem c13_project_fresh_partial (h : List (Op Text)) (hn : h.length ≤ u32Max)
+    (l : List (Nat × Text)) (hl : (keys l).Nodup) (hln : l.length ≤ u32Max)
+    (hm : ∀ key t, (key, t) ∈ l ↔ Spec.final h key = some t)
+    (guard : ∀ key, lookup (projRun h).ids key = lookup (projRun (loadFresh l)).ids key)
+    (k : QKind) (key : Nat) :
+    (projQuery (projRun h) k key).2 = (projQuery (projRun (loadFresh l)) k key).2 := by
+  have hlen : (loadFresh l).length ≤ u32Max := by simpa [loadFresh] using hln
+  have i₁ := pinv_run h hn
+  have i₂ := pinv_run (loadFresh l) hlen
+  -- the two projects agree on the final texts by key …
+  have hfin : ∀ g, Spec.final (loadFresh l) g = Spec.final h g := by
+    intro g
+    rw [final_loadFresh l hl]
+    cases hg : Spec.final h g with
+    | none =>
+      cases hl' : lookup l g with
+      | none => rfl
+      | some t => have := (hm g t).1 (mem_of_lookup hl'); rw [hg] at this; cases this
+    | some t => exact lookup_of_mem hl ((hm g t).2 hg)
+  -- … hence, with the same ids, on the text of every file id
+  have hsrc : ∀ id, lookup (projRun h).db.sources id = lookup (projRun (loadFresh l)).db.sources id := by
+    intro id
+    cases h1 : lookup (projRun h).db.sources id with
+    | some t =>
+      obtain ⟨key', hk'⟩ := i₁.orphan id (by simp [h1])
+      have e1 := i₁.spec key'
+      have e2 := i₂.spec key'
+      rw [hk'] at e1
+      rw [← guard key', hk'] at e2
+      simp only [Option.bind] at e1 e2
+      rw [e2, hfin key', ← e1, h1]
+    | none =>
+      cases h2 : lookup (projRun (loadFresh l)).db.sources id with
+      | none => rfl
+      | some t =>
+        obtain ⟨key', hk'⟩ := i₂.orphan id (by simp [h2])
+        have e1 := i₁.spec key'
+        have e2 := i₂.spec key'
+        rw [hk'] at e2
+        rw [guard key', hk'] at e1
+        simp only [Option.bind] at e1 e2
+        rw [h1] at e1
+        rw [h2, hfin key', ← e1] at e2
+        cases e2
+  unfold projQuery
+  rw [← guard key]
+  cases hk : lookup (projRun h).ids key with
+  | none => rfl
+  | some id =>
+    simp only
+    have hv := viewSources_listing i₁.db
+    rw [(query_of_inv i₁.db (fun g => rfl) hv k id).1,
+        (query_of_inv i₂.db (fun g => (hsrc g).symm) hv k id).1]
+
 /-! ### Non-vacuity -/
 
 /-- A history with an edit, a removal, a re-addition and interleaved queries; its final texts,
@@ -294,5 +353,18 @@ example :
     lookup (projRun h).ids 0 = none ∧ lookup (projSet (projRun h) 0 100).ids 0 = some 2 ∧
       lookup (projSet (projRun h) 0 100).ids 1 = some 1 := by
   decide
+
+/-- `c13_project_fresh_partial` is not vacuous: an edit history without removals and the fresh load
+in order of first appearance hand out the same ids. -/
+example :
+    let h : List (Op Nat) := [.set 0 100, .set 1 101, .query .analyze 1, .set 0 102]
+    let l : List (Nat × Nat) := [(0, 102), (1, 101)]
+    (∀ key, lookup (projRun h).ids key = lookup (projRun (loadFresh l)).ids key) ∧
+      (projQuery (projRun h) .analyze 1).2 = some (.ok (.proj .analyze [(0, 102), (1, 101)] 1)) := by
+  refine ⟨?_, by decide⟩
+  intro key
+  have e1 : (projRun ([.set 0 100, .set 1 101, .query .analyze 1, .set 0 102] : List (Op Nat))).ids = [(0, 0), (1, 1)] := by decide
+  have e2 : (projRun (loadFresh ([(0, 102), (1, 101)] : List (Nat × Nat)))).ids = [(0, 0), (1, 1)] := by decide
+  simp only [e1, e2]
 
 end TrustVerif.C13
